@@ -148,3 +148,143 @@ class SubpartitionKeySpec(KernelSpec):
         if toks[0] == "none":
             return Agg("enum", [], name="Option", variant="None")
         return Agg("enum", [rstr(bytes.fromhex(toks[1]))], name="Option", variant="Some")
+
+
+# ----------------------------------------------------------------------------------------------------
+# writer side: scheduler::inner_locustdb::subpartition
+# ----------------------------------------------------------------------------------------------------
+import re as _re
+from ..mirsym.values import UNIT
+from ..mirsym.models import seq_of
+
+NAMESETS = [[b"b", b"a", b"c"], [b"col_b", b"col_a"], [b"a"], [b"b", b"A", b"c"], [b"z", b"m", b"a", b"q"]]
+
+
+class SubpartitionWriterSpec(KernelSpec):
+    """inner_locustdb::subpartition(opts, columns): the columns, sorted by name, are split into contiguous runs; the metadata
+    of run g names the run's last (greatest) column, its key is that name when it is file-system safe (a digest otherwise,
+    'all' for a single run); so the reader's rule 'first run whose last column >= name' finds every stored column, and the
+    sizes respect max_partition_size_bytes"""
+    fn_path = "scheduler::inner_locustdb::subpartition"
+    diff_cases = 2
+
+    def instantiations(self, tier):
+        return [{"nat": "subpartition_writer"}]
+
+    def shapes(self, tier, inst):
+        return [0, 1, 2] if tier == "quick" else [0, 1, 2, 3, 4]
+
+    def sym_inputs(self, inst, shape):
+        names = NAMESETS[shape]
+        inp = {"sizes": [sym("u64", f"sz{i}") for i in range(len(names))], "max": sym("u64", "max")}
+        # sizes are multiples of 8 below 2^20 (what the native replay can realise with real i64 columns)
+        pre = [z3.ULT(s.v, 1 << 20) for s in inp["sizes"]] + [(s.v & 7) == 0 for s in inp["sizes"]] + [z3.ULT(inp["max"].v, 1 << 41)]
+        return inp, pre
+
+    def explore(self, ctx, ex, fn, inst, shape, inp, pre):
+        names = NAMESETS[shape]
+        cfs = ctx.src().struct_fields("Column", having="codec")
+        ofs = ctx.src().struct_fields("Options", having="max_partition_size_bytes")
+        if cfs is None or ofs is None or "name" not in cfs or "max_partition_size_bytes" not in ofs:
+            raise interp.Unsupported("Column.name / Options.max_partition_size_bytes not found in the current source")
+        cols = []
+        for i, nm in enumerate(names):
+            vals = [rstr(nm) if f == "name" else Havoc("?", f) for f in cfs]
+            cols.append(Ref(Cell(Agg("struct", vals, name="Column"))))
+        opts = Agg("struct", [inp["max"] if f == "max_partition_size_bytes" else Havoc("?", f) for f in ofs], name="Options")
+
+        def heap_size(ex_, st, fr, path, args, m):
+            col = args[0]
+            v = interp.navigate(col.cell.v, col.path)
+            while isinstance(v, Ref):
+                v = interp.navigate(v.cell.v, v.path)
+            nm = bytes(e.v for e in v.fields[cfs.index("name")].elems)
+            return I("usize", inp["sizes"][names.index(nm)].v)
+        from .envelope import sha_stubs
+        ex.stubs = [(_re.compile(r"(?:^|::)Column::heap_size_of_children$"), heap_size)] + sha_stubs([I("u8", 0)] * 32, [])
+        st = ex.start(fn, [Ref(Cell(opts)), VecObj(cols)], {}, pc=pre)
+        return ex.explore(st)
+
+    def view(self, ctx_fields, value):
+        meta, groups = value.fields
+        sfs = self._sfs
+        cfs = self._cfs
+        ms = []
+        for mm in elems_of(meta):
+            key = mm.fields[sfs.index("subpartition_key")]
+            last = mm.fields[sfs.index("last_column")]
+            ms.append({"key": bytes(e.v for e in key.elems) if all(isinstance(e, I) and e.concrete for e in key.elems) else None,
+                       "last": bytes(e.v for e in last.elems), "size": mm.fields[sfs.index("size_bytes")]})
+        gs = []
+        for g in elems_of(groups):
+            names = []
+            for c in elems_of(g):
+                v = interp.navigate(c.cell.v, c.path)
+                names.append(bytes(e.v for e in v.fields[cfs.index("name")].elems))
+            gs.append(names)
+        return {"meta": ms, "groups": gs}
+
+    def post(self, inst, shape, inp, value, state=None):
+        if isinstance(value, dict):
+            v = value
+        else:
+            v = self.view(None, value)
+        names = NAMESETS[shape]
+        srt = sorted(names)
+        conds = []
+        flat = [n for g in v["groups"] for n in g]
+        conds.append(("the runs, concatenated, are exactly the columns sorted by name (contiguous runs, nothing lost)", B(flat == srt)))
+        conds.append(("one metadata entry per run", B(len(v["meta"]) == len(v["groups"]))))
+        if flat != srt or len(v["meta"]) != len(v["groups"]):
+            return conds
+        conds.append(("no empty run", B(all(len(g) > 0 for g in v["groups"]))))
+        for gi, (mm, g) in enumerate(zip(v["meta"], v["groups"])):
+            if not g:
+                continue
+            conds.append((f"run {gi}: last_column is the greatest column name of the run", B(mm["last"] == g[-1])))
+            if len(v["groups"]) == 1:
+                conds.append(("a single run is stored under the key 'all'", B(mm["key"] == b"all")))
+            else:
+                safe = len(g[-1]) <= 64 and all((0x61 <= ch <= 0x7a) or ch == 0x5f for ch in g[-1])
+                if safe:
+                    conds.append((f"run {gi}: a file-system safe last column name is used verbatim as key", B(mm["key"] == g[-1])))
+                else:
+                    conds.append((f"run {gi}: an unsafe last column name is not used as a file name", B(mm["key"] != g[-1])))
+            tot = I("u64", 0)
+            for n in g:
+                tot = binop("Add", tot, inp["sizes"][names.index(n)])
+            conds.append((f"run {gi}: recorded size is the sum of its columns' sizes", binop("Eq", mm["size"], tot)))
+            if len(g) > 1:
+                conds.append((f"run {gi}: a run of several columns respects max_partition_size_bytes", binop("Le", tot, inp["max"])))
+        return conds
+
+    def get_fn(self, ctx, inst):
+        self._sfs = ctx.src().struct_fields("SubpartitionMetadata")
+        self._cfs = ctx.src().struct_fields("Column", having="codec")
+        return KernelSpec.get_fn(self, ctx, inst)
+
+    def random_inputs(self, rng, inst, shape):
+        names = NAMESETS[shape]
+        return {"sizes": [I("u64", rng.choice([0, 8, 80, 800])) for _ in names], "max": I("u64", rng.choice([1, 8, 16, 88, 160, 10**6]))}
+
+    def native(self, inst, shape, inp):
+        if inp is None:
+            return ("subpartition_writer", [])
+        names = NAMESETS[shape]
+        return ("subpartition_writer", [",".join(n.hex() for n in names), fmt_ints(inp["sizes"]), inp["max"].v])
+
+    def parse_native(self, inst, shape, toks):
+        # meta: key:last:size;...   groups: name,name|name
+        ms, gs = [], []
+        if toks[0] != "-":
+            for ent in toks[0].split(";"):
+                k, l, sz = ent.split(":")
+                ms.append({"key": bytes.fromhex(k) if k != "-" else b"", "last": bytes.fromhex(l) if l != "-" else b"", "size": I("u64", int(sz))})
+        if toks[1] != "-":
+            for g in toks[1].split("|"):
+                gs.append([bytes.fromhex(h) for h in g.split(",") if h])
+        return {"meta": ms, "groups": gs}
+
+    def native_view(self, inst, shape, v, st):
+        d = self.view(None, v)
+        return d
